@@ -558,7 +558,9 @@ def part_c():
         first = tables[0][2][0]
         check(first[4] == "SAMPLE A" and first[5] == VolParent.path + ["SAMPLE A"],
               f"file name/path {first[:6]}")
-        check(first[-1] == s1[140:], "sample A bytes")
+        # the synthetic header declares 0 sample words: since the repair of G16 (reads of an empty view are clipped) its data
+        # window reads as empty instead of running on to the end of the file
+        check(first[-1] == b"", "sample A bytes")
     d = bytearray(good)
     d[ft + 24 + 5] = 0x29          # not an AKAI character, inside entry 1's name
     res = run_image(load_image(bytes(d)), (3,))
